@@ -46,6 +46,24 @@ Theorem C03_reply_payload_exact : forall f,
 Proof. exact reply_view_exact. Qed.
 Print Assumptions C03_reply_payload_exact.
 
+(* the liveness half: in every reachable state in which the read loop waits for a header, a frame whose type
+   consults the await map and whose id is registered there is handed to exactly the registered caller by the
+   single RFrame event — whatever the handler does — the entry is consumed and the read loop is back at its loop
+   head: it cannot stay inside the dispatch (for the read loop alone: C09_read_loop_never_parks_in_dispatch,
+   Client/C09Flood.v). Abstract here: the hand-over is part of the RFrame event, i.e. the reply channel always has
+   room for the one reply of its request (capacity 1, one channel per request); the check demands the delivery on
+   the running code (pred_c03: reply-not-delivered). *)
+Theorem C03_awaited_reply_is_delivered : forall cfg evs f h c,
+  let s := run cfg evs in
+  reader s = RRead -> consults cfg (f_typ f) = true -> lookup (f_id f) (awaiting s) = Some c ->
+  let s' := step cfg s (RFrame f h) in
+  In (c, length (peer_sent s), f) (delivered s') /\
+  caller_result s' c = Some (ROk (length (peer_sent s)) f) /\
+  lookup (f_id f) (awaiting s') = None /\
+  reader s' = RTop.
+Proof. exact awaited_reply_is_delivered. Qed.
+Print Assumptions C03_awaited_reply_is_delivered.
+
 (* The full property, with the last clause unconditional, for a client that filters: *)
 Theorem C03_full_when_filtering : forall cfg evs c q f,
   filter_unsolicited cfg = true ->
